@@ -4,7 +4,7 @@
 set -e
 cd "$(dirname "$0")"
 export PYTHONPATH="${VERIF_REPO:-/repo}:$(pwd)/harness" PYTHONHASHSEED=0 PYTHONDONTWRITEBYTECODE=1
-/venv/bin/python -c "import py2v_arch, py2v_stats, py2v_proto, py2v_grid, py2v_es, py2v_rank, py2v_ucb, py2v_c18, py2v_thr, py2v_store, py2v_viz, py2v_prox, py2v_dqd, py2v_op, py2v_storeops, py2v_sliding, py2v_retrieve, py2v_gridviz, py2v_validate, py2v_sched" >/dev/null 2>&1 || true
+/venv/bin/python -c "import py2v_arch, py2v_stats, py2v_proto, py2v_grid, py2v_es, py2v_rank, py2v_ucb, py2v_c18, py2v_thr, py2v_store, py2v_viz, py2v_prox, py2v_dqd, py2v_op, py2v_storeops, py2v_sliding, py2v_retrieve, py2v_gridviz, py2v_validate, py2v_sched, py2v_bandit" >/dev/null 2>&1 || true
 /venv/bin/python - <<'PY'
 import sys, common
 ok, log = common.build_all(clean=True)
